@@ -83,6 +83,9 @@ def run(chk):
     chk.notes["free"] = s4
     with open(tr) as f:
         chk.cov["samples"].append({"source": "recorded run", "events": [json.loads(next(f)) for _ in range(14)]})
+    if chk.tier == "thorough":
+        # beyond TLC's bounds: inductive invariant by Apalache (any sets of <= 8 processes) + TLAPS proof (any size); recorded, never decides
+        vlib.run_unbounded(chk, "oncecell")
     chk.cov["rule"] = ("TLC: all interleavings of the atomic steps of 3-4 installers and 2-3 emitters; implementation: "
                        "scheduler-driven runs (distinct = distinct event sequences), TLC behaviours replayed, child processes "
                        "through the real global, real-parallel trials")
